@@ -26,7 +26,9 @@ import yaml
 import common
 import proofs
 
-FILES = ["Model_scsv.v", "Proofs_scsv.v", "Model_scsv_frame.v", "Proofs_scsv_frame.v", "Entry_scsv.v"]
+FILES = ["Model_scsv.v", "Proofs_scsv.v", "Model_scsv_frame.v", "Proofs_scsv_frame.v", "Model_scsv_header.v",
+         "Proofs_scsv_header.v", "Model_scsv_py.v", "gen/Gen_scsv.v", "Inst_scsv.v", "Inst_scsv_save.v", "Inst_scsv_header.v", "Entry_scsv.v", "Entry_scsv_gen.v",
+         "Proofs_scsv_faults.v"]
 PROP = "Properties/C16.v"
 WS = " \t\n\r\x0b\x0c\x1c\x1d\x1e\x1f"
 TYPEMAP = {"string": str, "integer": int, "float": float, "boolean": bool, "complex": complex}
@@ -130,7 +132,7 @@ def pool_definitions(terms):
     out = []
     for s, n in _POOL.items():
         if n in used:
-            lit = '"%s"' % s if _LIT.match(s) else '(h "%s")' % s.encode("utf-8").hex()
+            lit = '"%s"' % s if _LIT.match(s) else '(h "%s")' % s.encode("utf-8", "surrogatepass").hex()
             out.append("Definition %s : string := Eval vm_compute in %s.\n" % (n, lit))
     return "".join(out)
 
@@ -178,6 +180,47 @@ def cy(v):
     if isinstance(v, str):
         return "(YStr %s)" % cs(v)
     return "YOther"
+
+
+_PYTYPES = {str: "TStr", int: "TInt", float: "TFloat", bool: "TBool", complex: "TCplx"}
+
+
+def cpy(v):
+    """a Python value as a term of Model_scsv_py.pyval (anything outside the universe: POther)"""
+    if v is None:
+        return "PNone"
+    if isinstance(v, bool):
+        return "(PBool %s)" % cb(v)
+    if isinstance(v, int):
+        return "(PInt %s)" % cz(v)
+    if isinstance(v, float):
+        return "(PFloat %s)" % cf(v)
+    if isinstance(v, complex):
+        return "(PCplx %s %s)" % (cf(v.real), cf(v.imag))
+    if isinstance(v, str):
+        return "(PStr %s)" % cs(v)
+    if isinstance(v, list):
+        return "(PList %s)" % clist(v, cpy)
+    if isinstance(v, tuple):
+        return "(PTuple %s)" % clist(v, cpy)
+    if isinstance(v, dict) and all(isinstance(k, str) for k in v):
+        return "(PDict %s)" % clist(list(v.items()), lambda kv: "(%s, %s)" % (cs(kv[0]), cpy(kv[1])))
+    if isinstance(v, type) and v in _PYTYPES:
+        return "(PType %s)" % _PYTYPES[v]
+    return '(POther "x")'
+
+
+def walk_values(v):
+    """every scalar inside a nested Python value (for the oracle tables)"""
+    if isinstance(v, (list, tuple)):
+        for x in v:
+            yield from walk_values(x)
+    elif isinstance(v, dict):
+        for k, x in v.items():
+            yield k
+            yield from walk_values(x)
+    else:
+        yield v
 
 
 def copt(x, f):
@@ -316,7 +359,7 @@ def delim_err(d):
 # decoding of the model's output
 # ----------------------------------------------------------------------------------------
 def unhex(x):
-    return bytes.fromhex(x).decode("utf-8")
+    return bytes.fromhex(x).decode("utf-8", "surrogatepass")
 
 
 def dec_ftok(x):
@@ -596,7 +639,8 @@ def classify(s, data, loaded):
         return "C16:read_scsv:single-column-yaml-fence"
     if dash_fence_rows(s["delimiter"], zip(*out_texts(s, data))):
         return "C16:read_scsv:dash-delimited-empty-row-is-fence"
-    if yaml_special(s["delimiter"]) or yaml_special(s["missing"]):
+    if yaml_special(s["delimiter"]) or yaml_special(s["missing"]) or any(
+            yaml_special(x) for f in s["fields"] for x in (f.get("name"), f.get("fill")) if isinstance(x, str)):
         return "C16:write_scsv_header:yaml-special-character"
     if loaded is None:
         return "C16:write_scsv_header:scalar-breaks-yaml"
@@ -638,10 +682,10 @@ def classify(s, data, loaded):
 # ----------------------------------------------------------------------------------------
 NAMES_OK = ["a", "b", "col_1", "x2", "Temp", "strain", "angle", "ϕ", "名前", "é", "m_index", "T", "fabric", "study", "z9", "none"]
 NAMES_HOSTILE = ["yes", "null", "on", "true", "_hidden", "class", "None"]
-DELIMS = [",", ",", ",", ";", "\t", "|", ":", "/", "#", "e", "0", "¦", "→", "~", "&"]
-MISSING_OK = ["-", "-", "", "NA", "N/A", "?", "--", "∅", "—", "nul", "NaN", "nan", "None", "9999", "-1", "True", "1.0", "---", "(nan+0j)"]
+DELIMS = [",", ",", ",", ";", "\t", "|", ":", "/", "#", "e", "0", "¦", "→", "~", "&", "\U0001f539"]
+MISSING_OK = ["-", "-", "", "NA", "N/A", "?", "--", "∅", "—", "nul", "NaN", "nan", "None", "9999", "-1", "True", "1.0", "---", "(nan+0j)", "\U0001f600", "n\U0001d4dca", "\ufeff"]
 FILLS_OK = {
-    "string": [None, "MISSING", "N/A", "x y", "ü", "-", "none", "a,b", "missing value"],
+    "string": [None, "MISSING", "N/A", "x y", "ü", "-", "none", "a,b", "missing value", "\U0001f600", "f\U00020000g"],
     "integer": ["0", "999999", "-1", 7, "12345678901234567890", -5],
     "float": ["NaN", "nan", "0.0", "-0.0", "inf", "-inf", "1e+300", 0, 1.5, "-999.0", "2.5", -1],
     "boolean": [None, None, "True", "yes", True, False, "", "False", 0],
@@ -655,7 +699,8 @@ FILLS_HOSTILE = {
     "boolean": [],
 }
 STR_CELLS = ["", "s1", "B, b", 'q"r', "x y", "ü∅", "1.0", "10", "-", "NaN", "None", "nan", "#c", "a;b|c", "it's", "e", "0",
-             "true", "MISSING", "N/A", "---", "--", "(1+2j)", "名", "a\tb", "→", "~", ":", "/"]
+             "true", "MISSING", "N/A", "---", "--", "(1+2j)", "名", "a\tb", "→", "~", ":", "/", "\U0001f600", "c\U0001d4dcd", "a\u2028b",
+             "\ufeffx", "x\x7fy", "\U0010ffff"]
 STR_CELLS_BAD = [" lead", "trail ", "\tx", "a\nb", "c\rd", "x\n"]
 FLOATS = [float("nan"), float("inf"), float("-inf"), 0.0, -0.0, 1.5, 0.1, 1e22, 5e-324, 1.7976931348623157e308,
           -999.0, 2.5, 1e300, 1.0, 1e16, 123456.789, -1.0, 0.5]
@@ -983,6 +1028,294 @@ def edit_frame(rng, kind, text, s):
     return "\n".join(lines) + tail
 
 
+# ----------------------------------------------------------------------------------------
+# code points of every plane / category that YAML, csv or str.strip treat specially (added after seeded change C16d)
+# ----------------------------------------------------------------------------------------
+UNI_FAMILIES = {
+    # supplementary planes (UTF-16 surrogate pairs; 4 bytes in UTF-8)
+    "astral-first-U+10000": "\U00010000", "astral-emoji-U+1F600": "\U0001f600", "astral-math-U+1D4DC": "\U0001d4dc",
+    "astral-cjk-ext-b-U+20000": "\U00020000", "astral-tag-U+E0001": "\U000e0001", "astral-pua-U+F0000": "\U000f0000",
+    "astral-nonchar-U+1FFFF": "\U0001ffff", "astral-last-U+10FFFF": "\U0010ffff",
+    # line breaks and separators outside ASCII
+    "NEL-U+0085": "\x85", "LS-U+2028": "\u2028", "PS-U+2029": "\u2029",
+    # BOM, DEL, C1 controls, non-characters, specials
+    "BOM-U+FEFF": "\ufeff", "DEL-U+007F": "\x7f", "C1-U+0080": "\x80", "C1-U+0090": "\x90", "C1-U+009F": "\x9f",
+    "nonchar-U+FFFE": "\ufffe", "nonchar-U+FFFF": "\uffff", "nonchar-U+FDD0": "\ufdd0", "replacement-U+FFFD": "\ufffd",
+    "last-before-surrogates-U+D7FF": "\ud7ff", "first-after-surrogates-U+E000": "\ue000",
+    # white space / format characters of the BMP
+    "NBSP-U+00A0": "\xa0", "ideographic-space-U+3000": "\u3000", "ZWJ-U+200D": "\u200d", "RLO-U+202E": "\u202e",
+    "combining-U+0301": "\u0301", "soft-hyphen-U+00AD": "\xad",
+    # Latin-1 / BMP letters (controls of the comparison: these always worked)
+    "latin1-U+00E9": "\xe9", "cjk-U+4E2D": "\u4e2d",
+    # C0 controls, NUL
+    "C0-US-U+001F": "\x1f", "C0-VT-U+000B": "\x0b", "NUL-U+0000": "\x00", "tab": "\t",
+    # the characters quoting is about
+    "apostrophe": "'", "double-quote": '"', "backslash": "\\",
+}
+UNI_POSITIONS = ("delimiter", "missing-embedded", "missing-bare", "fill-embedded", "fill-bare", "cell-embedded", "cell-bare", "name")
+UNITS = ["percent", "\xb5m", "m/s", "\U0001d4dc", "kg"]
+
+
+def gen_unicode_cases(rng):
+    """one valid schema + representable columns per (special code point, position in the schema / data)"""
+    out = []
+    for fam, ch in UNI_FAMILIES.items():
+        ws = ch.strip() == ""
+        for pos in UNI_POSITIONS:
+            d, m, sfill, cell, name = ",", "-", "unknown", "s1", "label"
+            if pos == "delimiter":
+                # NEL is folded to a space by YAML: the file is then split at another delimiter and the cells keep the NEL,
+                # which the model's ASCII strip does not cover -- the family is exercised in the other positions
+                if ch in ' "\n\r' or ch == "\x85":
+                    continue
+                d = ch
+            elif pos == "missing-embedded":
+                m = "a" + ch + "b"
+            elif pos == "missing-bare":
+                if ws:
+                    continue
+                m = ch
+            elif pos == "fill-embedded":
+                sfill = "f" + ch + "g"
+            elif pos == "fill-bare":
+                if ws:
+                    continue
+                sfill = ch
+            elif pos == "cell-embedded":
+                cell = "c" + ch + "d"
+            elif pos == "cell-bare":
+                if ws:
+                    continue
+                cell = ch
+            elif pos == "name":
+                name = "n" + ch
+                if not (name.isidentifier() and namedtuple_ok([name, "count"])):
+                    continue
+            if d in m or m == d or cell == m or sfill == m:
+                continue
+            t2 = ["integer", "float", "complex"][rng.integers(3)]
+            f2 = {"integer": -1, "float": "NaN", "complex": "0j"}[t2]
+            v2 = {"integer": [3, -1, 10 ** 20], "float": [1.5, float("nan"), float("-inf")], "complex": [1 + 2j, 0j, -3.5j]}[t2]
+            fields = [{"name": name, "type": "string", "fill": sfill}, {"name": "count", "type": t2, "fill": f2}]
+            if rng.random() < 0.4:
+                fields[int(rng.integers(2))]["unit"] = UNITS[rng.integers(len(UNITS))]
+            out.append({"kind": "rt", "stream": "unicode", "family": fam, "position": pos,
+                        "schema": {"delimiter": d, "missing": m, "fields": fields}, "data": [["p", sfill, cell], v2],
+                        "comments": ["\U0001f600 comment"] if rng.random() < 0.1 else None})
+    return out
+
+
+QUOTE_EXTRA = ["", "'", "''", "it's", "a''b'", "'a'", '"', "\\", "a b", " lead", "trail ", "x: y", "#", "~", "null", "010", "yes"]
+UNQUOTE_TEXTS = ["'a'b'", "'a", "a'", "'a''", "'", "''", "'" * 4, "'a''b'", "'\U0001f600'", "", "'a'b"]
+
+
+def yaml_single_quoted(text):
+    """what PyYAML makes of a one-line scalar text that starts with an apostrophe -> ('OK', str) | ('ERR',)"""
+    try:
+        v = yaml.safe_load("k: " + text)
+    except yaml.YAMLError:
+        return ("ERR",)
+    if isinstance(v, dict) and isinstance(v.get("k"), str) and text.startswith("'"):
+        return ("OK", v["k"])
+    return ("ERR",)
+
+
+def gen_quote_cases(cases):
+    """every special code point bare and embedded, the quoting corner cases, and every string scalar of the unicode stream"""
+    xs = list(QUOTE_EXTRA)
+    for ch in UNI_FAMILIES.values():
+        xs += [ch, "a" + ch + "b", ch + "'" + ch]
+    for c in cases:
+        if c.get("stream") == "unicode":
+            s = c["schema"]
+            xs += [s["delimiter"], s["missing"]] + [f["name"] for f in s["fields"]] + \
+                  [f["fill"] for f in s["fields"] if isinstance(f.get("fill"), str)]
+    seen, out = set(), []
+    for x in xs:
+        if x not in seen:
+            seen.add(x)
+            out.append({"kind": "quote", "stream": "quote", "text": x})
+    for t in UNQUOTE_TEXTS:
+        out.append({"kind": "unquote", "stream": "quote", "text": t})
+    return out
+
+
+LOOKALIKES = ["True", "true", "TRUE", "T", "t", "yes", "Yes", "1", "0", "no", "False", "1.0", "1.", ".5", "nan", "NaN", "-nan", "inf",
+              "-inf", "Infinity", "1e3", "1E3", "1e", "0x10", "0b1", "0o7", "1_000", "1__0", "_1", "1_", "+5", "-0", "-0.0", " 7 ",
+              "\t8", "9\n", "", " ", "1j", "(1+2j)", "1+2j", "nanj", "abc", "٣", "1,5", "1 000", "--", "-", "NA"]
+
+
+def gen_direct_cases(rng, scale):
+    """the generated functions of coq/gen/Gen_scsv.v run directly on raw Python values (tie T: the primitives of
+    Model_scsv_py.v against the real builtins), also outside the typed model"""
+    cases = []
+
+    def base():
+        return {"delimiter": ",", "missing": "-", "fields": [{"name": "a", "type": "float", "fill": "NaN"}, {"name": "b"}]}
+    weird = [None, [], "delimiter", 5, ["delimiter", "missing", "fields"], ("delimiter", "missing", "fields"), {},
+             {"delimiter": ","}, {"delimiter": ",", "missing": "-"}, {"fields": [], "delimiter": ",", "missing": "-"}, base()]
+    for key in ("delimiter", "missing"):
+        for v in (5, None, True, 1.5, ["a"], ("a",), [","], {"a": 1}, {",": 1}, "", ",", "-", ",-", "ab", 1j, str):
+            sch = base()
+            sch[key] = v
+            weird.append(sch)
+    for v in (None, 5, "ab", (), ({"name": "a"},), ({"name": "a"}, {"name": "b c"}), {"name": "a"}, [None], [5], ["a"], [[("name", "a")]],
+              [{}], [{"name": None}], [{"name": 5}], [{"name": ["a"]}], [{"name": True}], [{"name": 1.5}], [{"name": str}],
+              [{"name": "a", "type": 5}], [{"name": "a", "type": None}], [{"name": "a", "type": ["float"]}], [{"name": "a", "type": ("float",)}],
+              [{"name": "a", "type": {}}], [{"name": "a", "type": "float", "fill": None}], [{"name": "a", "type": "complex", "fill": 1j}],
+              [{"name": "a", "type": "integer", "unit": "m"}], [{"type": "string", "name": "x", "fill": [1]}],
+              [{"name": "a", "extra": {"k": 1}}, {"name": "bad name"}], [{"name": "a"}, {"type": "float"}],
+              [{"name": "a", "type": "boolean"}, {"name": "b", "type": "Boolean"}], [{"name": "a", "type": "complex"}],
+              [{"name": "a", "type": "string", "fill": 0}, {"name": "b", "type": "integer", "fill": None}, None]):
+        sch = base()
+        sch["fields"] = v
+        weird.append(sch)
+    for sch in weird:
+        cases.append({"kind": "gen_validate", "stream": "gen-direct", "schema": sch})
+    for k in range(30 * scale):                 # valid / single-fault schemas through the generated function as well
+        sch = gen_schema(rng, nfields=int(rng.integers(1, 5)))
+        if rng.random() < 0.5:
+            sch, _ = apply_fault(rng, DOCUMENTED_FAULTS[rng.integers(9)], sch, gen_data(rng, sch, nrows=1))
+        if rng.random() < 0.3:
+            sch["fields"] = tuple(sch["fields"]) if "fields" in sch else ()
+        cases.append({"kind": "gen_validate", "stream": "gen-direct", "schema": sch})
+    # _parse_scsv_cell / _parse_scsv_bool on look-alike texts, every type, markers and fills of every kind
+    fills = [None, "NaN", "", "abc", "0", 0, 5, 1.5, float("nan"), True, False, "0x10", "1_000", "nan", " 3 ", 1j, [1], "None", "1.0"]
+    markers = ["", "-", "NA", "nan", "1", "True", None, "NaN", "0", "1.0"]
+    for t in (str, int, float, bool, complex):
+        for x in LOOKALIKES:
+            for m in (["", "-", x.strip(), None] if scale == 1 else markers + [x.strip(), x]):
+                f = fills[int(rng.integers(len(fills)))]
+                cases.append({"kind": "gen_cell", "stream": "gen-direct", "func": t, "data": x, "missing": m, "fill": f})
+        for f in fills:                          # every fill once, cell = marker
+            cases.append({"kind": "gen_cell", "stream": "gen-direct", "func": t, "data": " - ", "missing": "-", "fill": f})
+    for x in LOOKALIKES + [5, 1, 0, None, True, False, 1.0, 0.0, 1j, [1], "YES", "tRuE", " true"]:
+        cases.append({"kind": "gen_bool", "stream": "gen-direct", "x": x})
+    return cases
+
+
+# ----------------------------------------------------------------------------------------
+# streams added with the tie T of the decision logic (round 5): every CSV-legal one-character delimiter of ASCII,
+# missing markers that are affixes of cell texts, fills that occur as cells of other columns, look-alike texts,
+# generated terse schemas, long columns
+# ----------------------------------------------------------------------------------------
+def gen_delimiter_sweep(rng):
+    """every ASCII character csv accepts as a delimiter (and a few it refuses), two fields, cells with and without it"""
+    out = []
+    for o in list(range(1, 128)) + [0xa0, 0xb7, 0x3b1, 0x2192, 0x1f539]:
+        d = chr(o)
+        m = "NA" if d not in "NA" else "-"
+        s = {"delimiter": d, "missing": m,
+             "fields": [{"name": "a", "type": "string", "fill": "zz"}, {"name": "b", "type": "float", "fill": "NaN"}]}
+        cells = ["p", "zz", "q" + d + "r" if d not in " \t\n\r\x0b\x0c\x1c\x1d\x1e\x1f" else "qr", "s"]
+        out.append({"kind": "rt", "stream": "delimiter-sweep", "schema": s,
+                    "data": [cells, [1.5, float("nan"), 1e5, -2.0]]})
+    return out
+
+
+AFFIX_MARKERS = ["NA", "-", "nan", "1", "0", "--", "N/A", "None", "x", "1.0", "e", "nul", "()", "inf", "j"]
+
+
+def gen_affix_cases(rng, n):
+    """missing markers that are proper prefixes / suffixes / infixes of cell texts; fills that are cells of other columns"""
+    out = []
+    for k in range(n):
+        m = AFFIX_MARKERS[k % len(AFFIX_MARKERS)]
+        d = [",", ";", "|", "\t"][k % 4]
+        strs = [m + "x", "x" + m, m + m, "a" + m + "b", (m[:-1] or "y"), (m[1:] or "z"), m.upper() if m.upper() != m else m + "_"]
+        strs = [x for x in strs if x != m and d not in x and x.strip() == x]
+        ints = [z for z in (10, 21, 100, -1, -10, 11, 101, 0, 1) if str(z) != m]
+        floats = [x for x in (1.0, 10.0, 0.1, 1.5, -1.0, float("inf"), float("-inf"), float("nan"), 1e10, 0.0, -0.0) if repr(x) != m and str(x) != m]
+        cplx = [c for c in (1j, 1 + 1j, complex(0, 0), complex(float("nan"), 0), complex(1, float("inf"))) if str(c) != m]
+        nrows = 5
+        pick = lambda pool: [pool[int(rng.integers(len(pool)))] for _ in range(nrows)]      # noqa: E731
+        # fills of one column are cells of the neighbouring column of the same type
+        s = {"delimiter": d, "missing": m, "fields": [
+            {"name": "s1", "type": "string", "fill": strs[0]}, {"name": "s2", "type": "string", "fill": strs[-1]},
+            {"name": "i1", "type": "integer", "fill": str(ints[0])}, {"name": "i2", "type": "integer", "fill": ints[1]},
+            {"name": "f1", "type": "float", "fill": "NaN"}, {"name": "f2", "type": "float", "fill": repr(floats[0])},
+            {"name": "c1", "type": "complex", "fill": "NaN"}, {"name": "b1", "type": "boolean"}]}
+        data = [pick(strs) + [strs[-1], strs[0]], pick(strs) + [strs[0], strs[-1]],
+                pick(ints) + [ints[1], ints[0]], pick(ints) + [ints[0], ints[1]],
+                pick(floats) + [floats[0], float("nan")], pick(floats) + [float("nan"), floats[0]],
+                pick(cplx) + [cplx[0], complex(float("nan"), 0)], [bool(rng.integers(2)) for _ in range(nrows + 2)]]
+        out.append({"kind": "rt", "stream": "marker-affix", "schema": s, "data": data})
+    return out
+
+
+def gen_lookalike_cases(rng):
+    """the texts that look like another type, as string cells / string fills / missing markers, next to the values they denote"""
+    out = []
+    texts = [x for x in LOOKALIKES if x.strip() == x and x != "" and "\n" not in x]
+    for k in range(0, len(texts), 6):
+        chunk = texts[k:k + 6]
+        for m in ("-", chunk[0]):
+            cells = [x for x in chunk if x != m]
+            if not cells:
+                continue
+            s = {"delimiter": [",", ";", "\t"][k % 3], "missing": m, "fields": [
+                {"name": "txt", "type": "string", "fill": cells[-1]}, {"name": "flag", "type": "boolean"},
+                {"name": "n", "type": "integer", "fill": "1_000"}, {"name": "x", "type": "float", "fill": "1e3"},
+                {"name": "z", "type": "complex", "fill": "1j"}]}
+            n = len(cells)
+            data = [cells, [bool((i + k) % 2) for i in range(n)], [[1, 0, 1000, 16, -5, 10][i % 6] for i in range(n)],
+                    [[1.0, float("nan"), float("inf"), 1000.0, 0.5, -0.0][i % 6] for i in range(n)],
+                    [[1j, 1 + 2j, complex(float("nan"), 0), 0j, 1j, complex(0, float("inf"))][i % 6] for i in range(n)]]
+            out.append({"kind": "rt", "stream": "lookalike", "schema": s, "data": data})
+    return out
+
+
+TERSE_NAMES = ["a", "colA", "x_1", "T", "ϕ", "名", "_h", "class", "1a", "a b", "", "d", "m"]
+TERSE_FILLS = ["", "NaN", "0", "-1", "N/A", "1e3", "x y", "a,b", "(", "m", "d", "ü", "0x10", "1_000", "True", " ", "''"]
+TERSE_UNITS = ["", "%", "m/s", "GPa", "a:b", "µm", "1"]
+
+
+def gen_terse_inputs(rng, n):
+    """terse schema strings from the grammar d<delim>m<missing>:<name>(<type>[:<fill>[:<unit>]])... and near misses"""
+    out = []
+    for k in range(n):
+        d = [",", ";", "\t", "|", " ", ",,", "", "→", "d", "m", ":", "(", "md"][int(rng.integers(13))] if rng.random() < 0.5 else ","
+        m = ["-", "", "NA", "nan", "m", "mm", ":", "--", "∅", "(", "d", " "][int(rng.integers(12))] if rng.random() < 0.5 else "-"
+        cols = []
+        for j in range(int(rng.integers(0, 5))):
+            name = TERSE_NAMES[int(rng.integers(len(TERSE_NAMES)))] if rng.random() < 0.4 else "c%d" % j
+            t = ["s", "i", "f", "b", "c", "", "q", "S", "string", "ff"][int(rng.integers(10))] if rng.random() < 0.4 else "sifbc"[int(rng.integers(5))]
+            spec = t
+            if rng.random() < 0.6:
+                spec += ":" + TERSE_FILLS[int(rng.integers(len(TERSE_FILLS)))]
+                if rng.random() < 0.4:
+                    spec += ":" + TERSE_UNITS[int(rng.integers(len(TERSE_UNITS)))]
+                    if rng.random() < 0.1:
+                        spec += ":extra"
+            cols.append(name + "(" + spec + ")")
+        text = "d" + d + "m" + m + ":" + "".join(cols)
+        r = rng.random()
+        if r < 0.08:
+            text = text[1:]
+        elif r < 0.16:
+            text = text.replace(":", "", 1)
+        elif r < 0.24:
+            text = text + ["x", "(", ")", "()", "(s", "a(s))"][int(rng.integers(6))]
+        elif r < 0.30:
+            text = text.replace("(", "((", 1)
+        out.append(text)
+    return out
+
+
+def gen_terse_roundtrips(rng, impl_parse):
+    """schemas produced by parse_scsv_schema used for a round trip (string fill '' included)"""
+    out = []
+    for text in ["d,m-:colA(s)colB(s:N/A:...)colC()colD(i:999999)colE(f:NaN:%)", "d;mNA:x(f:NaN)y(i:0)z(c:NaN:GPa)w(b)",
+                 "d\tm:name(s)count(i:-1)", "d|m--:a()b(s:x y)c(f:1e3)", "d,m-:a(s:)b(i:1_000)"]:
+        try:
+            s = impl_parse(text)
+        except Exception:  # noqa: BLE001
+            continue
+        data = gen_data(rng, s, nrows=4)
+        out.append({"kind": "rt", "stream": "terse-roundtrip", "schema": s, "data": data})
+    return out
+
+
 def gen_cases(chk, tier):
     rng = np.random.default_rng(chk.seed)
     scale = 1 if tier == "quick" else 6
@@ -1076,6 +1409,26 @@ def gen_cases(chk, tier):
                 data = gen_data(rng, s, nrows=int(rng.integers(1, 4)))
             cases.append({"kind": "file", "stream": "frame", "framed": True, "fault": "frame_" + kind, "schema": s, "data": data,
                           "r": int(rng.integers(1 << 30)), "comments": ["written by the check", "second: line"] if k == 0 else None})
+    # (9) special code points of every plane in every position of the schema / data; the quoting function itself
+    uni = gen_unicode_cases(rng)
+    cases += uni
+    cases += gen_quote_cases(uni)
+    # (10) the generated functions directly (tie T), look-alike cell texts
+    cases += gen_direct_cases(rng, scale)
+    # (11) every ASCII delimiter; missing markers that are affixes of cell texts / fills that are cells of the neighbouring
+    #      column; look-alike texts as string cells, fills and markers; generated terse schemas; 1e4 rows (thorough)
+    rng2 = np.random.default_rng(chk.seed + 11)
+    cases += gen_delimiter_sweep(rng2)
+    cases += gen_affix_cases(rng2, 30 * scale)
+    cases += gen_lookalike_cases(rng2)
+    for t in gen_terse_inputs(rng2, 70 * scale):
+        cases.append({"kind": "terse", "stream": "terse-generated", "text": t})
+    if tier != "quick":
+        s = {"delimiter": ",", "missing": "-", "fields": [{"name": "n", "type": "integer", "fill": "0"},
+                                                            {"name": "label", "type": "string", "fill": "none"}]}
+        n = 10000
+        cases.append({"kind": "rt", "stream": "valid-long", "schema": s,
+                      "data": [[int(x) for x in rng2.integers(0, 50, n)], [["a", "none", "b c", "x,y", "-x"][int(x)] for x in rng2.integers(0, 5, n)]]})
     # state between calls: every 8th round trip is run twice
     for i, c in enumerate(cases):
         if c["kind"] == "rt" and i % 8 == 0:
@@ -1094,7 +1447,53 @@ def prepare(impl, c):
             c["impl"] = ("OK", impl.io.parse_scsv_schema(c["text"]))
         except Exception as e:  # noqa: BLE001
             c["impl"] = ("ERR", exc_enum(e))
-        return "(run_terse %s)" % cs(c["text"])
+        if not GEN_ENTRY:
+            return "(run_terse %s)" % cs(c["text"])
+        return "(run_terse2 %s %s)" % (Tables().emit(("OK", [])), cs(c["text"]))
+    if c["kind"] in ("gen_validate", "gen_cell", "gen_bool"):
+        if c["kind"] == "gen_validate":
+            c["impl"] = impl.validate(c["schema"])
+            vals = [c["schema"]]
+        elif c["kind"] == "gen_cell":
+            try:
+                c["impl"] = ("OK", impl.io._parse_scsv_cell(c["func"], c["data"], missingstr=c["missing"], fillval=c["fill"]))
+            except Exception as e:  # noqa: BLE001
+                c["impl"] = ("ERR", exc_enum(e))
+            vals = [c["data"], c["missing"], c["fill"]]
+        else:
+            try:
+                c["impl"] = ("OK", impl.io._parse_scsv_bool(c["x"]))
+            except Exception as e:  # noqa: BLE001
+                c["impl"] = ("ERR", exc_enum(e))
+            vals = [c["x"]]
+        names = []
+        for v in walk_values(vals):
+            if isinstance(v, (str, int, float, complex)) or v is None:
+                T.add_value(v)
+                if isinstance(v, str):
+                    names.append(v)
+                elif not isinstance(v, bool) and v is not None:
+                    T.add_value(str(v))
+        T.namelists.append(names)
+        T.close()
+        c["strings"] = set(T.strs)
+        tbl = T.emit(("OK", []))
+        if c["kind"] == "gen_validate":
+            return "(run_gen_validate %s %s)" % (tbl, cpy(c["schema"]))
+        if c["kind"] == "gen_cell":
+            return "(run_gen_cell %s %s %s %s %s)" % (tbl, cpy(c["func"]), cpy(c["data"]), cpy(c["missing"]), cpy(c["fill"]))
+        return "(run_gen_bool %s %s)" % (tbl, cpy(c["x"]))
+    if c["kind"] == "quote":
+        x = c["text"]
+        try:
+            qd = impl.io._yaml_quote(x)
+            c["impl"] = ("OK", qd, yaml_single_quoted(qd) if isinstance(qd, str) else ("ERR",))
+        except Exception as e:  # noqa: BLE001
+            c["impl"] = ("ERR", exc_enum(e))
+        return "(run_quote %s)" % cs(x)
+    if c["kind"] == "unquote":
+        c["impl"] = yaml_single_quoted(c["text"])
+        return "(run_unquote %s)" % cs(c["text"])
     s, data = c["schema"], c["data"]
     c["impl_validate"] = impl.validate(s)
     before = (json.dumps(s, sort_keys=True, default=repr), repr(data))
@@ -1170,7 +1569,13 @@ def prepare(impl, c):
             tbl, clist(lines, cs), clist(yl, cs), y, clist(cl, cs), cres(rows, lambda rr: clist(rr, lambda r_: clist(r_, cs))))
     if c["kind"] == "file":
         return "(run_read %s %s)" % (tbl, y)
-    return "(run_rt %s %s %s %s)" % (tbl, cschema(s), y, clist(data, lambda col: clist(col, ccell)))
+    fl = s.get("fields") if isinstance(s.get("fields"), list) else []
+    units = [f.get("unit") if isinstance(f, dict) and isinstance(f.get("unit"), str) else None for f in fl]
+    return "(run_rt_h %s %s %s %s %s %s)" % (tbl, cschema(s), y, clist(data, lambda col: clist(col, ccell)),
+                                               clist(c.get("comments") or [], cs), clist(units, lambda u: copt(u, cs)))
+
+
+GEN_ENTRY = True        # Entry_scsv_gen.vo is up to date (False: the translator failed closed; the generated functions are not run)
 
 
 def run_coq(terms, tag):
@@ -1183,7 +1588,8 @@ def run_coq(terms, tag):
         path = os.path.join(d, f"C16_{tag}_{k // 250}.v")
         with open(path, "w") as f:
             f.write("From Coq Require Import String List ZArith.\nFrom PV Require Import Model_scsv Entry_scsv.\n"
-                    "Import ListNotations.\nOpen Scope string_scope.\n")
+                    + ("From PV Require Import Model_scsv_py Entry_scsv_gen.\n" if GEN_ENTRY else "")
+                    + "Import ListNotations.\nOpen Scope string_scope.\n")
             f.write(pool_definitions(terms[k:k + 250]))
             for t in terms[k:k + 250]:
                 f.write("Eval vm_compute in %s.\n" % t)
@@ -1204,6 +1610,8 @@ def run_coq(terms, tag):
 def parse_out(o):
     if o.startswith("T:"):
         return {"T": o[2:]}
+    if o.startswith("G:"):
+        return {"G": o[2:]}
     return dict(p.split(":", 1) for p in o.split("|"))
 
 
@@ -1273,13 +1681,79 @@ def compare(chk, cases, outs):
         if c["kind"] == "terse":
             r = c["impl"]
             exp = "OK " + schema_to_show(r[1]) if r[0] == "OK" else "ERR " + r[1]
+            parts_t = m["T"].split("#")
             count("terse_result", exp[:3])
-            chk.note_case(("terse", c["text"]), nontrivial=True, sample={"terse": c["text"], "impl": exp[:80], "model": m["T"][:80]})
-            if m["T"] != exp:
-                bad.append((c, f"parse_scsv_schema({c['text']!r}): implementation {exp}, model {m['T']}"))
+            chk.note_case(("terse", c["text"]), nontrivial=True, sample={"terse": c["text"], "impl": exp[:80], "model": parts_t[0][:80]})
+            if parts_t[0] != exp:
+                bad.append((c, f"parse_scsv_schema({c['text']!r}): implementation {exp}, model {parts_t[0]}"))
+            # the generated parser (tie T), units included
+            if not GEN_ENTRY:
+                continue
+            if len(parts_t) < 2 or parts_t[1] != "T:" + exp:
+                bad.append((c, f"parse_scsv_schema({c['text']!r}): implementation {exp}, generated parser {parts_t[1:]}"))
+            elif r[0] == "OK":
+                units = ";".join("S" + f["unit"].encode().hex() if "unit" in f else "-" for f in r[1]["fields"])
+                if len(parts_t) < 3 or parts_t[2] != "U:" + units:
+                    bad.append((c, f"parse_scsv_schema({c['text']!r}): units {units}, generated parser {parts_t[2:]}"))
+            continue
+        if c["kind"] in ("gen_validate", "gen_cell", "gen_bool"):
+            r, g = c["impl"], m["G"]
+            count("gen_direct_kind", c["kind"])
+            key = (c["kind"], repr(c.get("schema")), repr(c.get("func")), repr(c.get("data")), repr(c.get("missing")), repr(c.get("fill")), repr(c.get("x")))
+            chk.note_case(key, nontrivial=True, sample=None)
+            for x in c.get("strings", ()):
+                if x.strip() != x.strip(WS):
+                    bad.append((c, f"residual: str.strip is not ASCII strip on {x!r}"))
+            if g == "ERR EUnmodelled":
+                count("gen_direct_outcome", "outside the primitives (EUnmodelled)")
+                continue
+            if r[0] == "ERR":
+                okc = g == "ERR " + r[1]
+            else:
+                try:
+                    okc = g.startswith("OK ") and g[3:] not in ("?",) and (
+                        (g[3:] == "N" and r[1] is None) or (g[3:] != "N" and same_value(dec_cell(g[3:]), r[1])))
+                except Exception:  # noqa: BLE001
+                    okc = False
+            count("gen_direct_outcome", ("agree: " + (r[1] if r[0] == "ERR" else type(r[1]).__name__)))
+            if not okc:
+                what = {"gen_validate": lambda: f"_validate_scsv_schema({c['schema']!r})",
+                        "gen_cell": lambda: f"_parse_scsv_cell({c['func'].__name__}, {c['data']!r}, missingstr={c['missing']!r}, fillval={c['fill']!r})",
+                        "gen_bool": lambda: f"_parse_scsv_bool({c['x']!r})"}[c["kind"]]()
+                bad.append((c, f"{what}: implementation {r}, generated function {g}"))
+            continue
+        if c["kind"] == "quote":
+            x, r = c["text"], c["impl"]
+            mq, mu = unhex(m["Q"]), m["U"]
+            count("quote_text_class", "yaml-special" if yaml_special(x) else "has line break" if ("\n" in x or "\r" in x)
+                  else "astral" if any(ord(ch) >= 0x10000 for ch in x) else "has apostrophe" if "'" in x else "ascii" if x.isascii() else "bmp")
+            chk.note_case(("quote", x), nontrivial=True, sample={"text": x, "impl": list(r[:2]), "model": mq} if len(x) < 4 and "'" in x else None)
+            if mu != "S" + x.encode("utf-8", "surrogatepass").hex():
+                bad.append((c, f"model contradicts C16_yaml_quote_roundtrip on {x!r}: {mu}"))
+            if r[0] != "OK" or r[1] != mq:
+                bad.append((c, f"_yaml_quote({x!r}): implementation {r[1]!r}, model {mq!r}"))
+            elif not yaml_special(x) and "\n" not in x and "\r" not in x:
+                # hypothesis about PyYAML: a one-line single-quoted scalar of YAML-verbatim characters loads as unquote says
+                count("yaml_single_quoted_scalar_loads_back", r[2] == ("OK", x))
+                if r[2] != ("OK", x):
+                    bad.append((c, f"residual: PyYAML loads the quoted scalar {r[1]!r} as {r[2]}, the scanner model gives {x!r}"))
+            else:
+                count("yaml_single_quoted_scalar_loads_back", "not verbatim in YAML: " + ("same" if r[2] == ("OK", x) else "differs / refused"))
+            continue
+        if c["kind"] == "unquote":
+            r = c["impl"]
+            exp = "S" + r[1].encode("utf-8", "surrogatepass").hex() if r[0] == "OK" else "-"
+            count("unquote_result", "accepted" if r[0] == "OK" else "refused")
+            chk.note_case(("unquote", c["text"]), nontrivial=True, sample=None)
+            if m["U"] != exp:
+                bad.append((c, f"single-quoted scalar {c['text']!r}: PyYAML {r}, model {m['U']}"))
             continue
         s, data, r = c["schema"], c["data"], c["impl"]
         fs = s.get("fields") if isinstance(s.get("fields"), list) else []
+        if c.get("stream") == "unicode":
+            count("unicode_family", c["family"])
+            count("unicode_position", c["position"])
+            count("unicode_outcome_by_position", c["position"] + ": " + (r[0] if r[0] == "OK" else r[0] + ":" + r[1]))
         count("n_fields", len(fs))
         count("n_rows", len(data[0]) if data else "no columns")
         for f in fs:
@@ -1346,6 +1820,18 @@ def compare(chk, cases, outs):
                 bad.append((c, f"save_scsv wrote a file, model save: {m['S']}"))
             else:
                 parts = c["text"].split("---" + os.linesep, 2)
+                # the header block, byte-wise against the model of write_scsv_header
+                ml = dec_res(m["L"], lambda x: [unhex(t[1:]) for t in x.split(",")] if x else [])
+                if ml[0] == "OK":
+                    want_hdr = "".join(ln + os.linesep for ln in ml[1])
+                    count("header_block_compared", len(parts) == 3 and parts[1] == want_hdr)
+                    if len(parts) != 3 or parts[1] != want_hdr:
+                        bad.append((c, f"header block differs: implementation {parts[1][:300] if len(parts) == 3 else c['text'][:300]!r}, "
+                                       f"model header_lines {want_hdr[:300]!r}"))
+                elif ml[1] == "EUnmodelled":
+                    count("header_block_compared", "outside the header model (fill of another type)")
+                else:
+                    bad.append((c, f"save_scsv wrote a header, model header_lines: {m['L'][:80]}"))
                 want = model_csv_text(ms[1], s["delimiter"])
                 if len(parts) != 3 or parts[2] != want:
                     bad.append((c, f"file body differs: implementation {c['text'][-200:]!r}, model rows written by csv.writer {want[-200:]!r}"))
@@ -1466,10 +1952,36 @@ def decode_case(d):
     return s, [[dv(x) for x in col] for col in d["data"]], d.get("fault")
 
 
+def written_marker_failure(s, data, text):
+    """C16: "cells equal to a field's fill value are written as the missing marker" -- read on the file save_scsv wrote.
+    None when every such cell of the csv body is the missing marker (or the body cannot be attributed to cells)"""
+    try:
+        exp = out_texts(s, data)
+        body = split_at_second_fence(text)[1]
+        rows = list(csv.reader(body.split("\n")[:-1], delimiter=s["delimiter"]))[1:]
+        if len(rows) != len(data[0]) or any(len(r) != len(data) for r in rows):
+            return None
+        m = s["missing"]
+        for j, (f, col) in enumerate(zip(s["fields"], exp)):
+            if f.get("type", "string") == "boolean":
+                continue
+            for i, x in enumerate(col):
+                if x == m and str(data[j][i]) != m and rows[i][j] != m:
+                    return f"column {j} row {i}: the cell {data[j][i]!r} equals the fill value but is written as {rows[i][j]!r}, not as the missing marker {m!r}"
+    except Exception:  # noqa: BLE001
+        return None
+    return None
+
+
 def oracle(impl, s, data, fault=None):
     """direct reading of C16 on the public API.  -> list of (finding key | None, text)"""
     r, path = impl.roundtrip(s, data)
+    text = None
     if os.path.exists(path):
+        try:
+            text = open(path, newline="").read().replace("\r\n", "\n")
+        except Exception:  # noqa: BLE001
+            text = None
         os.unlink(path)
     if fault in DOCUMENTED_FAULTS:
         if not (r[0] == "SAVE-ERR" and r[1] == "SCSV"):
@@ -1481,6 +1993,8 @@ def oracle(impl, s, data, fault=None):
     except Exception:  # noqa: BLE001
         return []
     fail = roundtrip_failure(s, data, r)
+    if fail is None and text is not None:
+        fail = written_marker_failure(s, data, text)
     if fail is None:
         return []
     return [(None, fail)]
@@ -1528,10 +2042,16 @@ def _run(chk, ok, br, tmp):
         "twice (same result) and every call is checked to leave the caller's schema and columns unmodified. distinct = distinct (kind, fault, schema, data); non-trivial = "
         "the implementation returned at least one cell or raised")
     cases = gen_cases(chk, chk.tier)
+    cases += gen_terse_roundtrips(np.random.default_rng(chk.seed + 12), impl.io.parse_scsv_schema)
     bad, hits, unclassified = [], {}, []
+    global GEN_ENTRY
+    GEN_ENTRY = "Entry_scsv_gen.v" in br.built_vo
+    chk.cov["generated_functions_run"] = GEN_ENTRY
     if ok or PROP in br.built_vo or "Entry_scsv.v" in br.built_vo:
         terms, kept = [], []
         for c in cases:
+            if c["kind"].startswith("gen_") and not GEN_ENTRY:
+                continue
             try:
                 t = prepare(impl, c)
             except Unmodelled as e:
@@ -1583,6 +2103,11 @@ def _run(chk, ok, br, tmp):
         fails = oracle(impl, c["schema"], c["data"], c.get("fault"))
         if not fails:
             continue
+        if "loaded" not in c:            # the correspondence stage did not run (Entry_scsv.v not built): load the header now
+            try:
+                prepare(impl, c)
+            except Exception:  # noqa: BLE001
+                pass
         try:
             k = classify(c["schema"], c["data"], c.get("loaded")) if c.get("fault") not in DOCUMENTED_FAULTS else "refusal"
             if c.get("fault") == "cell_unparsable" and marker_text_in_numeric_column(c["schema"], c["data"]):
@@ -1610,7 +2135,9 @@ def _run(chk, ok, br, tmp):
                         "broken": chk.cov.get("broken_obligations", []), "disagreements": [m for _, m in bad[:3]]})
     else:
         chk.replay({"kind": "unproved", "broken": chk.cov.get("broken_obligations", []),
-                    "disagreements": [{"input": encode_case(c) if c.get("kind") != "terse" else c["text"], "detail": m} for c, m in bad[:3]],
+                    "disagreements": [{"input": encode_case(c) if c.get("kind") in ("rt", "file") else
+                                       c.get("text", repr({k: c[k] for k in ("schema", "func", "data", "missing", "fill", "x") if k in c})),
+                                       "detail": m} for c, m in bad[:3]],
                     "note": "proof obligation or correspondence no longer checks; no failing input found by the search"},
                    no_input=True)
 
